@@ -89,9 +89,6 @@ struct SIMDVector<double, simd_abi::avx512> {
             if (maska[i] == -1) {
                 a[Size - i - 1] = ((const scalar_value_type*)&value)[Size - i - 1];
             }
-            else {
-                a[Size - i - 1] = 0;
-            }
         }
         unused(Aligned);
 #endif
@@ -397,9 +394,6 @@ struct SIMDVector<double, simd_abi::avx> {
             if (maska[i] == -1) {
                 a[Size - i - 1] = ((const scalar_value_type*)&value)[Size - i - 1];
             }
-            else {
-                a[Size - i - 1] = 0;
-            }
         }
         unused(Aligned);
 #endif
@@ -696,9 +690,6 @@ struct SIMDVector<double, simd_abi::sse> {
         for (FASTOR_INDEX i=0; i<Size; ++i) {
             if (maska[i] == -1) {
                 a[Size - i - 1] = ((const scalar_value_type*)&value)[Size - i - 1];
-            }
-            else {
-                a[Size - i - 1] = 0;
             }
         }
         unused(Aligned);
